@@ -89,14 +89,22 @@ func filtersOK(t *JT) bool {
 	return ok
 }
 
+// foldASCII is encoding/json's foldName: ASCII letters upper-cased, and the two non-ASCII runes
+// that fold onto ASCII letters (U+017F long s → S, U+212A Kelvin sign → K) — as Ledger.Api.JVal.foldChar.
 func foldASCII(s string) string {
-	b := []byte(s)
-	for i, c := range b {
-		if c >= 'a' && c <= 'z' {
-			b[i] = c - 32
+	out := make([]rune, 0, len(s))
+	for _, c := range s {
+		switch {
+		case c >= 'a' && c <= 'z':
+			c -= 32
+		case c == 0x17F:
+			c = 'S'
+		case c == 0x212A:
+			c = 'K'
 		}
+		out = append(out, c)
 	}
-	return string(b)
+	return string(out)
 }
 
 func genCursorTree(r *rand.Rand) *JT {
